@@ -1251,12 +1251,13 @@ int32 matrixRegisterSession(ssl_t *ssl)
     }
 
 /*
-    Register the incoming masterSecret and cipher, which could still be null,
-    depending on when we're called.
+    Reserve the entry. Nothing that could be resumed is stored before the
+    handshake has completed (matrixUpdateSession): an entry without a cipher
+    is not resumable, and the handshake that owns it has not authenticated
+    anybody yet.
  */
-    Memcpy(g_sessionTable[i].masterSecret, ssl->sec.masterSecret,
-        SSL_HS_MASTER_SIZE);
-    g_sessionTable[i].cipher = ssl->cipher;
+    Memset(g_sessionTable[i].masterSecret, 0x0, SSL_HS_MASTER_SIZE);
+    g_sessionTable[i].cipher = NULL;
     g_sessionTable[i].inUse += 1;
 /*
     The sessionId is the current serverRandom value, with the first 4 bytes
@@ -1475,6 +1476,19 @@ int32 matrixUpdateSession(ssl_t *ssl)
         g_sessionTable[i].cipher = NULL;
         psUnlockMutex(&g_sessionTableLock);
         return PS_FAILURE;
+    }
+    if (ssl->hsState != SSL_HS_DONE)
+    {
+        /* Called before the handshake is over (ClientKeyExchange), or for a
+           connection that is given up in the middle of it: a session that
+           was never established is not to be resumed. */
+        if (ssl->flags & SSL_FLAGS_CLOSED)
+        {
+            Memset(g_sessionTable[i].masterSecret, 0x0, SSL_HS_MASTER_SIZE);
+            g_sessionTable[i].cipher = NULL;
+        }
+        psUnlockMutex(&g_sessionTableLock);
+        return PS_SUCCESS;
     }
     Memcpy(g_sessionTable[i].masterSecret, ssl->sec.masterSecret,
         SSL_HS_MASTER_SIZE);
